@@ -43,14 +43,16 @@ type Fault struct {
 }
 
 type In struct {
-	Kind      string `json:"kind"` // "fault" | "calib"
-	Ev        int    `json:"ev"`
-	Pos       int    `json:"pos"` // position of the faulty plugin: 0,1,2
-	N         int    `json:"n"`   // number of plugins
-	Fault     Fault  `json:"fault"`
-	Raw       bool   `json:"raw"` // faulty plugin speaks the protocol without the stub
-	TimeoutMs int    `json:"timeout_ms"`
-	SlackMs   int    `json:"slack_ms"`
+	Kind  string `json:"kind"` // "fault" | "calib" | "multi"
+	Ev    int    `json:"ev"`
+	Pos   int    `json:"pos"` // position of the faulty plugin: 0,1,2
+	N     int    `json:"n"`   // number of plugins
+	Fault Fault  `json:"fault"`
+	Raw   bool   `json:"raw"` // faulty plugin speaks the protocol without the stub
+	// Faults (kind "multi"): one fault per plugin, all armed for the same request.
+	Faults    []Fault `json:"faults"`
+	TimeoutMs int     `json:"timeout_ms"`
+	SlackMs   int     `json:"slack_ms"`
 }
 
 type Inv struct {
@@ -199,6 +201,91 @@ func runOnce(dir string, in *In) (obs Obs) {
 	return
 }
 
+// runMulti: every plugin has its own fault (possibly "none"), all armed for the one request.
+func runMulti(dir string, in *In) (obs Obs) {
+	obs.Closed = []bool{}
+	r, err := rt.NewRuntime(dir, nil)
+	if err != nil {
+		obs.Fail = "runtime: " + err.Error()
+		return
+	}
+	defer r.Close()
+	T := time.Duration(in.TimeoutMs) * time.Millisecond
+	release := make(chan struct{})
+	defer close(release)
+	n := len(in.Faults)
+	fcs := make([]*rt.FaultConn, n)
+	var plugins []*rt.Plugin
+	for i := 0; i < n; i++ {
+		i := i
+		f := in.Faults[i]
+		hook := func(p *rt.Plugin, ev int, req string) error {
+			if req != "fault" {
+				return nil
+			}
+			switch f.Kind {
+			case "herr":
+				return errors.New("veto:" + p.Name + ":" + req + ":" + fmt.Sprint(ev))
+			case "hang":
+				select {
+				case <-release:
+				case <-time.After(8 * time.Second):
+				}
+			case "slow":
+				time.Sleep(T / 3)
+			case "kill-during":
+				fcs[i].Kill()
+			}
+			return nil
+		}
+		dial, get := rt.FaultDialer()
+		p, err := r.Connect(rt.Spec{Idx: fmt.Sprintf("%02d", 10*(i+1)), Name: names[i], Mask: 0},
+			rt.ConnectOpts{Hook: hook, Dial: dial})
+		if err != nil {
+			obs.Fail = "reg: " + err.Error()
+			return
+		}
+		fcs[i] = get()
+		plugins = append(plugins, p)
+	}
+	r.Rec.Take()
+	do := func(id string) ReqObs {
+		t0 := time.Now()
+		ctx, cancel := context.WithTimeout(context.Background(), 10*time.Second)
+		res := r.DoCtx(ctx, in.Ev, id)
+		cancel()
+		return ReqObs{Res: res, WallMs: time.Since(t0).Milliseconds(), Log: invs(r.Rec.Take())}
+	}
+	timeoutMu.Lock()
+	adaptation.SetPluginRequestTimeout(T)
+	defer func() {
+		adaptation.SetPluginRequestTimeout(adaptation.DefaultPluginRequestTimeout)
+		timeoutMu.Unlock()
+	}()
+	obs.Warm = do("warm.")
+	for i, f := range in.Faults {
+		switch f.Kind {
+		case "cut", "stall":
+			fcs[i].Arm(f.Kind, f.Dir, f.Off)
+		case "stop-before":
+			plugins[i].Stop()
+		case "kill-before":
+			fcs[i].Kill()
+		default:
+			fcs[i].Reset()
+		}
+	}
+	obs.Fault = do("fault")
+	for _, fc := range fcs {
+		fc.Reset()
+	}
+	obs.Next = do("next.")
+	for _, p := range plugins {
+		obs.Closed = append(obs.Closed, p.Closed())
+	}
+	return
+}
+
 // healthyMissing: a plugin other than the faulty one was not invoked in the request under test
 // or in the following one although nothing was done to it.
 func healthyMissing(in *In, o *Obs) bool {
@@ -234,12 +321,41 @@ func healthyMissing(in *In, o *Obs) bool {
 	return false
 }
 
+// noisyMulti: a plugin whose fault is none/slow was not invoked by the following request.
+func noisyMulti(in *In, o *Obs) bool {
+	if o.Fail != "" {
+		return false
+	}
+	for i, f := range in.Faults {
+		if f.Kind != "none" && f.Kind != "slow" {
+			continue
+		}
+		ok := false
+		for _, l := range o.Next.Log {
+			ok = ok || (l.P == names[i] && l.R == "next.")
+		}
+		if !ok {
+			return true
+		}
+	}
+	return false
+}
+
 func runCase(dir string, in *In) Obs {
 	var o Obs
 	for try := 0; try < 3; try++ {
 		d, err := os.MkdirTemp(dir, "c")
 		if err != nil {
 			return Obs{Fail: err.Error(), Closed: []bool{}}
+		}
+		if in.Kind == "multi" {
+			o = runMulti(d, in)
+			os.RemoveAll(d)
+			o.Retries = try
+			if !noisyMulti(in, &o) {
+				break
+			}
+			continue
 		}
 		o = runOnce(d, in)
 		os.RemoveAll(d)
@@ -417,6 +533,28 @@ func Run(o *hx.Opts, w *lineio.Writer) error {
 				add(mk(ev, 1, Fault{Kind: "cut", Dir: dir, Off: off}, true))
 			}
 		}
+	}
+	// several faults in one request: 3..5 plugins, each with its own fault
+	mkinds := []string{"none", "none", "slow", "herr", "hang", "kill-before", "stop-before", "kill-during", "cut", "cut", "stall"}
+	for i := 0; i < o.N(150, 1500); i++ {
+		n := 3 + rnd.Intn(3)
+		in := &In{Kind: "multi", Ev: reqTypes[rnd.Intn(len(reqTypes))], N: n, TimeoutMs: timeoutMs, SlackMs: slackMs}
+		herrs := 0
+		for k := 0; k < n; k++ {
+			f := Fault{Kind: mkinds[rnd.Intn(len(mkinds))]}
+			if f.Kind == "herr" {
+				herrs++
+				if herrs > 1 || rnd.Intn(2) == 0 {
+					f.Kind = "hang"
+				}
+			}
+			if f.Kind == "cut" || f.Kind == "stall" {
+				f.Dir = []string{"r2p", "p2r"}[rnd.Intn(2)]
+				f.Off = int64(rnd.Intn(18)) // inside both headers: shorter than every exchange
+			}
+			in.Faults = append(in.Faults, f)
+		}
+		jobs = append(jobs, &rt.Job{ID: fmt.Sprintf("multi-%d", i), In: in})
 	}
 	// the runtime's reaction to a reply cut in the middle of a frame depends on which of two
 	// goroutines notices first: repeat those points
